@@ -237,3 +237,67 @@ func stableName(v ssa.Value) string {
 	}
 	return stableNames[v]
 }
+
+// globalWrites lists the store instructions of fn and of its static callees
+// inside the module (transitively) whose address is derived from a
+// package-level variable: a direct store to the variable, or a store through
+// a pointer, slice or map loaded from it. Used for "the answer does not
+// depend on earlier calls" clauses (seed C06i).
+func globalWrites(fn *ssa.Function) []string {
+	var out []string
+	seen := map[*ssa.Function]bool{}
+	var fromGlobal func(v ssa.Value, depth int) bool
+	fromGlobal = func(v ssa.Value, depth int) bool {
+		if depth > 12 {
+			return false
+		}
+		switch x := v.(type) {
+		case *ssa.Global:
+			return true
+		case *ssa.IndexAddr:
+			return fromGlobal(x.X, depth+1)
+		case *ssa.FieldAddr:
+			return fromGlobal(x.X, depth+1)
+		case *ssa.UnOp:
+			return fromGlobal(x.X, depth+1)
+		case *ssa.Slice:
+			return fromGlobal(x.X, depth+1)
+		case *ssa.ChangeType:
+			return fromGlobal(x.X, depth+1)
+		case *ssa.Convert:
+			return fromGlobal(x.X, depth+1)
+		case *ssa.Phi:
+			for _, e := range x.Edges {
+				if fromGlobal(e, depth+1) {
+					return true
+				}
+			}
+		}
+		return false
+	}
+	var walk func(f *ssa.Function)
+	walk = func(f *ssa.Function) {
+		if f == nil || seen[f] || f.Blocks == nil || f.Pkg == nil || !strings.HasPrefix(f.Pkg.Pkg.Path(), modPath) {
+			return
+		}
+		seen[f] = true
+		for _, b := range f.Blocks {
+			for _, in := range b.Instrs {
+				switch x := in.(type) {
+				case *ssa.Store:
+					if fromGlobal(x.Addr, 0) {
+						out = append(out, fmt.Sprintf("%s: store through %s", shortFn(f), sx(x.Addr)))
+					}
+				case *ssa.MapUpdate:
+					if fromGlobal(x.Map, 0) {
+						out = append(out, fmt.Sprintf("%s: map update of %s", shortFn(f), sx(x.Map)))
+					}
+				case ssa.CallInstruction:
+					walk(x.Common().StaticCallee())
+				}
+			}
+		}
+	}
+	walk(fn)
+	return out
+}
